@@ -132,7 +132,10 @@ class OperatorTemplate(AbstractBaseTemplate):
             values = {}
 
         try:
-            instance, default_values = self.cache[key]
+            instance, default_values, owner = self.cache[key]
+            if owner is not self and (list(owner.equations) != list(self.equations) or
+                                      owner.variables != self.variables):
+                raise KeyError(key)  # another operator that merely shares the name
 
             for vname, value in default_values.items():
                 if vname not in values:
@@ -171,7 +174,7 @@ class OperatorTemplate(AbstractBaseTemplate):
             equations = self.equations
             instance = self.target_ir(equations=equations, variables=variables, inputs=inputs, output=output,
                                       template=self)
-            self.cache[key] = (instance, default_values)
+            self.cache[key] = (instance, default_values, self)
 
         if return_key:
             return instance, values, key
